@@ -48,11 +48,14 @@ def _project(psi, pos, n, v, reset):
     return out
 
 
-def branch_state(tape, W, assignment):
+def branch_state(tape, W, assignment, psi0=None):
     """assignment: {mcm op: 0/1}.  -> unnormalised branch state, or None when a postselected measurement contradicts the assignment"""
     n = len(W)
-    psi = np.zeros(2 ** n, dtype=object)
-    psi[0] = 1
+    if psi0 is None:
+        psi = np.zeros(2 ** n, dtype=object)
+        psi[0] = 1
+    else:
+        psi = np.array(psi0, dtype=object)
     for op in tape.operations:
         if is_mcm(op):
             v = assignment[op]
